@@ -387,6 +387,14 @@ func (ms *Modules) Process() []error {
 	// the errors.
 	for _, m := range mods {
 		ToEntry(m).Augment(true)
+	}
+	// Merging an augment can record an error (e.g. a duplicate node) on the
+	// augmented module, which need not be one that has augments left over,
+	// so collect the errors of all modules.
+	for _, m := range ms.Modules {
+		errs = append(errs, ToEntry(m).GetErrors()...)
+	}
+	for _, m := range ms.SubModules {
 		errs = append(errs, ToEntry(m).GetErrors()...)
 	}
 
